@@ -33,7 +33,10 @@ def _derived(fn_node, seed):
             if isinstance(s, ast.Assign) and len(s.targets) == 1 and isinstance(s.targets[0], ast.Name):
                 if norm(s.value) in ('type(self)', 'type(self.value)', 'type(self.modulus)'):
                     continue      # a type object, not an operand
-                used = {n.id for n in ast.walk(s.value) if isinstance(n, ast.Name)} - {'cls', 'poly', 'secpoly', 'runtime', 'type'}
+                # names used as operands: occurrences inside `type(<name>)` denote the class, not the value
+                typed = {id(a) for c in ast.walk(s.value) if isinstance(c, ast.Call) and isinstance(c.func, ast.Name) and c.func.id == 'type'
+                         for a in c.args if isinstance(a, ast.Name)}
+                used = {n.id for n in ast.walk(s.value) if isinstance(n, ast.Name) and id(n) not in typed} - {'cls', 'poly', 'secpoly', 'runtime', 'type'}
                 if used & out and s.targets[0].id not in out:
                     out.add(s.targets[0].id)
                     changed = True
@@ -47,7 +50,9 @@ def _cores(fn_node, op, selfn, othern):
     do -= {'cls'}
 
     def side(e):
-        names = {n.id for n in ast.walk(e) if isinstance(n, ast.Name)}
+        typed = {id(a) for c in ast.walk(e) if isinstance(c, ast.Call) and isinstance(c.func, ast.Name) and c.func.id == 'type'
+                 for a in c.args if isinstance(a, ast.Name)}
+        names = {n.id for n in ast.walk(e) if isinstance(n, ast.Name) and id(n) not in typed}
         s, o = bool(names & ds) and not (names & do), bool(names & do) and not (names & (ds - do))
         if names & ds and names & do:
             return 'both'
